@@ -178,3 +178,24 @@ def c_frame_const(k):
     k.prove_eq("a_P=0", fr.a_P(t, B_r_CP=B), np.zeros(3))
     k.prove_eq("B_Omega=0", fr.B_Omega(t), np.zeros(3))
     k.prove_eq("B_Psi=0", fr.B_Psi(t), np.zeros(3))
+
+
+@contract("C04", "Frame/motion supplied with constant (non-callable) derivatives")
+def c_frame_constant_derivatives(k):
+    """Frame accepts callable and non-callable derivatives (check_time_derivatives): a uniformly translating frame given
+    by r(t) with constant velocity array, and a uniformly accelerated one with callable velocity and constant acceleration"""
+    from cardillo.utility.check_time_derivatives import check_time_derivatives
+
+    k.covers(Frame.__init__, check_time_derivatives, Frame.v_P, Frame.a_P, Frame.kappa_P)
+    t = k.real("t")
+    r0, v0, a0, B = k.reals("r0", 3), k.reals("v0", 3), k.reals("a0", 3), k.reals("B", 3)
+    z = np.zeros(3)
+    cases = {
+        "uniform translation, r_OP_t and r_OP_tt constant arrays": (Frame(r_OP=lambda t_: r0 + v0 * t_, r_OP_t=v0, r_OP_tt=z), lambda t_: r0 + v0 * t_),
+        "uniform acceleration, r_OP_t callable, r_OP_tt a constant array": (Frame(r_OP=lambda t_: r0 + v0 * t_ + 0.5 * a0 * t_ * t_, r_OP_t=lambda t_: v0 + a0 * t_, r_OP_tt=a0), lambda t_: r0 + v0 * t_ + 0.5 * a0 * t_ * t_),
+    }
+    for tag, (fr, r) in cases.items():
+        k.prove_eq(f"{tag}: r_OP", fr.r_OP(t, B_r_CP=B), r(t) + B)
+        k.prove_eq(f"{tag}: v_P = D_t r_OP", fr.v_P(t, B_r_CP=B), k.jvp(lambda t_: fr.r_OP(t_, B_r_CP=B), [t], [1.0]))
+        k.prove_eq(f"{tag}: a_P = D_t v_P", fr.a_P(t, B_r_CP=B), k.jvp(lambda t_: fr.v_P(t_, B_r_CP=B), [t], [1.0]))
+        k.prove_eq(f"{tag}: kappa_P = a_P", fr.kappa_P(t, B_r_CP=B), fr.a_P(t, B_r_CP=B))
